@@ -22,6 +22,8 @@ func checkC05(c *Ctx) {
 	r.Rule("R05.11", "pair grammar of the fixed members: over every mode-feasible path of the printers of time, logger, level, msg and caller no two pairs follow each other without a separator, no separator follows a separator or an opening brace or precedes a closing one, whatever flags decide which parts are printed")
 	r.Rule("R05.9", "every attribute under its own key: the de-duplication of a member list merges two attributes only when their Key() strings are equal (its equality function returns nothing but a.Key() == b.Key(), identity of the two values, or a constant)")
 	r.Rule("R01.1", "(shared with C01) the level pair is the severity of the verb called: every verb emits at the severity it gates on")
+	r.Rule("R11.1", "(shared with C11) SetColorMode(false) selects logfmt whatever the logger's earlier mode: the mode setters' effect tables")
+	r.Rule("R07.3", "(shared with C07) among equal keys the last one given wins: stable sort, consistent comparator")
 	r.Rule("R19.1", "(shared with C19) the record is the bytes the encoder appended: the write side of the formatting buffer is isomorphic to bytes.Buffer")
 	r.Rule("R15.3", "(shared with C15) attributes arriving through the log/slog handler keep key and value: each kind arm hands on the key and the value read with the accessor of its own kind, groups nested, LogValuers resolved")
 	r.Rule("R15.4", "(shared with C15) every attribute under its own key with its own value: handlers derived for log/slog own a fresh copy of the bound field list")
@@ -58,6 +60,10 @@ func checkC05(c *Ctx) {
 		c02Pool(c, p, m)
 		dedupeEquality(c, p, m, "R05.9")
 		pooledCtxFromConstructor(c, p, "R05.9")
+		timeTextQuoted(c, p, m, Mode{false, true}, "R05.2")
+		bufferAppendOnly(c, p, m, "R05.11")
+		c11Transitions(c, p, m)
+		c07Sort(c, p, m)
 		c01Gates(c, p, m, tags)
 		c19WriteSide(c, p)
 		c15Handler(c, p, m)
@@ -218,6 +224,46 @@ func c05Keys(c *Ctx, p *Prog, m *Model, mr *ModeReach) {
 					}
 				}
 			}
+		}
+	}
+	// ... and what is pushed is the DOTTED key on every mode-feasible way to the push: a group's own key without the
+	// enclosing prefix makes the members of a group inside a group lose the outer path
+	for _, b := range sa.Blocks {
+		for _, in := range b.Instrs {
+			st, ok := in.(*ssa.Store)
+			if !ok || !fb[b] {
+				continue
+			}
+			if f, ok := pcField(st.Addr); !ok || f != "prefix" || st.Val == saved {
+				continue
+			}
+			var raw []string
+			seen := map[ssa.Value]bool{}
+			var walk func(v ssa.Value, from *ssa.BasicBlock)
+			walk = func(v ssa.Value, from *ssa.BasicBlock) {
+				if seen[v] {
+					return
+				}
+				seen[v] = true
+				switch x := v.(type) {
+				case *ssa.Phi:
+					for i, e := range x.Edges {
+						if fb[x.Block().Preds[i]] && modeEdgeFeasible(x.Block().Preds[i], x.Block(), mr.Mode) {
+							walk(e, x.Block().Preds[i])
+						}
+					}
+				case *ssa.Call:
+					if cal := calleeOf(x); cal != nil && nm(cal) == "DotPrefix" {
+						return
+					}
+					raw = append(raw, "a value that is not a dotted key at "+p.Pos(instrPos(x)))
+				default:
+					raw = append(raw, "an undotted key")
+				}
+			}
+			walk(st.Val, b)
+			r.Check(len(raw) == 0, "R05.5", "prefix-push:dotted", p.Pos(instrPos(st)), "on every feasible way the prefix pushed is DotPrefix(key, enclosing prefix)",
+				"the prefix pushed for the members of a value can be "+strings.Join(dedupStr(raw), ", ")+": members of a group nested in a group are printed without the outer group's name")
 		}
 	}
 	r.Check(setsPrefix, "R05.5", "prefix-push", p.FuncPos(sa), "the element's (dotted) key becomes the prefix while its value is rendered", "the prefix is not set to the element's key before its value is rendered: nested members lose their group path")
@@ -535,4 +581,14 @@ func anyReach(b *ssa.BasicBlock, targets map[*ssa.BasicBlock]bool, avoid func(*s
 		return false
 	}
 	return dfs(b)
+}
+
+// modeEdgeFeasible: the edge from -> to is not pruned by a mode test in `from`.
+func modeEdgeFeasible(from, to *ssa.BasicBlock, mode Mode) bool {
+	for _, s := range feasibleSuccs(from, mode) {
+		if s == to {
+			return true
+		}
+	}
+	return false
 }
